@@ -866,9 +866,21 @@ func (e *emitter) funcDef(name string) {
 	var params []string
 	addParam := func(n string, t types.Type) {
 		if st, ok := t.Underlying().(*types.Struct); ok {
-			// a struct of scalar fields is flattened into one parameter per field (v_<name>_<Field>)
+			// a struct is flattened into one parameter per field the body actually reads
+			// (v_<name>_<Field>); an unread field of any type is simply not a parameter
+			used := map[string]bool{}
+			ast.Inspect(fd.Body, func(nd ast.Node) bool {
+				if se, ok := nd.(*ast.SelectorExpr); ok {
+					if id, ok := se.X.(*ast.Ident); ok && id.Name == n {
+						used[se.Sel.Name] = true
+					}
+				}
+				return true
+			})
 			for i := 0; i < st.NumFields(); i++ {
-				params = append(params, "(v_"+n+"_"+st.Field(i).Name()+" : "+e.coqType(st.Field(i).Type())+")")
+				if used[st.Field(i).Name()] {
+					params = append(params, "(v_"+n+"_"+st.Field(i).Name()+" : "+e.coqType(st.Field(i).Type())+")")
+				}
 			}
 			e.structVars[n] = true
 			return
